@@ -132,6 +132,24 @@ package auth
 //@   ensures @scopes-granted-only-after-exchange calls(grant) <= 1 && (calls(grant) == 1 ==> calls(exchange) == 1 && callResult(exchange, 1, 0) == nil)
 //@   ensures @failed-exchange-is-reported calls(exchange) == 1 && callResult(exchange, 1, 0) != nil ==> result != nil
 
+// getProtectedResourceMetadata: every candidate location is fetched through oauthex.GetProtectedResourceMetadata (the
+// function that enforces https-or-loopback, the resource match and the URL-scheme checks) with that candidate's own
+// URL and resource and the handler's HTTP client; the document handed back is the one that function accepted for the
+// first candidate that answered, and it names at least one authorization server; the legacy fallback (the MCP
+// server's root as authorization server) is used only when no candidate answered.
+//@ func (*AuthorizationCodeHandler).getProtectedResourceMetadata [C15]
+//@   track oauthex.GetProtectedResourceMetadata as fetch
+//@   track url.Parse as parseRoot
+//@   requires h != nil
+//@   assume h.config != nil   // NewAuthorizationCodeHandler refuses a nil config and stores a copy
+//@   modifies *
+//@   assert at call oauthex.GetProtectedResourceMetadata: @each-candidate-is-fetched-with-its-own-resource $1 == local(url).URL && $2 == local(url).Resource && $3 == h.config.Client
+//@   assert at call oauthex.GetProtectedResourceMetadata: @nothing-is-fetched-after-a-candidate-answered calls(fetch) == 0 || lastResult(fetch, 1) != nil || lastResult(fetch, 0) == nil
+//@   ensures @the-metadata-used-is-what-the-checked-fetch-returned result.1 == nil && calls(parseRoot) == 0 ==> calls(fetch) >= 1 && lastResult(fetch, 1) == nil && result.0 == lastResult(fetch, 0) && result.0 != nil && len(result.0.AuthorizationServers) > 0
+//@   ensures @a-document-without-authorization-servers-is-an-error calls(fetch) >= 1 && lastResult(fetch, 1) == nil && lastResult(fetch, 0) != nil && len(lastResult(fetch, 0).AuthorizationServers) == 0 ==> result.1 != nil && result.0 == nil
+//@   ensures @the-legacy-fallback-only-when-no-candidate-answered calls(parseRoot) >= 1 ==> calls(fetch) == 0 || lastResult(fetch, 1) != nil || lastResult(fetch, 0) == nil
+//@   loop 1: invariant @no-candidate-has-answered-yet calls(fetch) == 0 || lastResult(fetch, 1) != nil || lastResult(fetch, 0) == nil
+
 // Helpers that only read their arguments (frame checked).
 //@ func selectTokenAuthMethod [C15]
 //@   pure
